@@ -184,6 +184,31 @@ def broadcast [Zero R] [Mul R] (d a : Tensor R) (ax : Nat) : Except Err (Tensor 
       .ok { a with blocks := sel.map (fun kb =>
               (kb.1, ⟨kb.2.shape, fun i => diagVal d (kb.1.getD ax []) (i.getD ax 0) * kb.2.val i⟩)) }
 
+/-- positions (inside sector `γ`) that a diagonal mask tensor keeps: the non-zero diagonal entries, ascending -/
+def maskIdx [Zero R] [DecidableEq R] (m : Tensor R) (γ : Charge) : List Nat :=
+  match m.get? [γ, γ] with
+  | none => []
+  | some B => (List.range (B.shape.getD 0 0)).filter (fun q => B.val [q, q] ≠ 0)
+
+/-- `m.apply_mask(a, axes=ax)` (`_contractions.py:apply_mask`, `_merging.py:_meta_mask`): on leg `ax` only the positions kept by the
+diagonal mask `m` survive, sector by sector; sectors without a kept position (or absent from the mask) disappear with their blocks;
+signature, charge and leg order are those of `a`. (Non-diagonal `a` only.) -/
+def applyMask [Zero R] [DecidableEq R] (m a : Tensor R) (ax : Nat) : Except Err (Tensor R) :=
+  if ¬ m.isdiag then .error .diag
+  else if a.isdiag then .error .other
+  else if a.sym ≠ m.sym then .error .sym
+  else if ax ≥ a.rank then .error .axes
+  else
+    let sel := a.blocks.filter (fun kb => !(maskIdx m (kb.1.getD ax [])).isEmpty)
+    if ¬ sel.all (fun kb =>
+        match m.get? [kb.1.getD ax [], kb.1.getD ax []] with
+        | some B => B.shape.getD 0 0 == kb.2.shape.getD ax 0
+        | none => true) then .error .bondDim
+    else
+      .ok { a with blocks := sel.map (fun kb =>
+              (kb.1, ⟨kb.2.shape.set ax (maskIdx m (kb.1.getD ax [])).length,
+                      fun i => kb.2.val (i.set ax ((maskIdx m (kb.1.getD ax [])).getD (i.getD ax 0) 0))⟩)) }
+
 /-! ### legs -/
 
 /-- `add_leg(axis, s, t)`: a new one-dimensional leg of charge `t` (reduced to canonical range),
